@@ -466,6 +466,10 @@ impl Ctx {
             "erased_attributes".into(),
             json!("strict: spans only (trivia, line-breaking variants); erased: spans + Nested(x)=x + single-expression Block = its expression + flags with_parens/braces/parentheses/inline (parentheses, inline-vs-block, paren-free call variants)"),
         );
+        self.rep.extra.insert(
+            "cut_offs_outside_the_property_wording".into(),
+            json!("The property names the positions where a cut must be an indentation error: directly after the header line of a function / if / else if / else / loop / try / catch / finally / match / switch, or after `=` or a binary operator at a line end; and it forbids one after a complete statement. Asserted exactly so. Other block-opening cuts are NOT in that list and are only counted (distribution `cut:unspecified:*`): an arm line ending in `then` / a bare `else` arm (`match x⏎  1 then`, `switch⏎  a then`, `match x⏎  else`: SyntaxError Expected{Match,Switch}ArmExpression[AfterThen]), a map-block key line `foo:` (ExpectedMapValue), `if a then` (ExpectedThenExpression; no block may follow `then`). A cut inside a `try` body after a complete statement gives ExpectedCatch — not an indentation error, as the 'complete statement' clause demands, asserted as such. A REPL does not offer continuation at these points; that is an observation about the front-end, not a violation of C10 as worded."),
+        );
         if let Some(d) = &self.drv {
             self.rep.extra.insert("driver_requests".into(), json!(d.requests));
         }
